@@ -304,7 +304,9 @@ def run_tlc(
         "-Xss256m",            # deep RECURSIVE folds over long traces are evaluated on the main thread
         "-XX:+UseParallelGC",
         f"-DTLA-Library={spec_dir}",
+        f"-Djava.io.tmpdir={meta}",   # SANY's scratch files go with the metadir, not into /tmp
     ]
+    meta.mkdir(parents=True, exist_ok=True)
     if dfs_queue:
         cmd.append("-Dtlc2.tool.queue.IStateQueue=StateDeque")
     cmd += ["-cp", f"{JAR}:{CM}", "tlc2.TLC", "-workers", str(workers), "-metadir", str(meta), "-noGenerateSpecTE",
